@@ -1109,6 +1109,7 @@ func (vc *VC) finish(st *State, f *Frame, res []Value, pos token.Pos) {
 	}
 	env := vc.envFor(st, f)
 	env.old = vc.entry
+	env.retFrame = f
 	names := resultNames(ct, f.fn.Signature)
 	vc.extraValues = nil
 	for i, r := range res {
@@ -1665,7 +1666,7 @@ func loggedCallee(fn *ssa.Function, name string) ([]types.Type, bool) {
 // localOnlyClause: postconditions phrased over the ghost logs of the function's own go statements
 // and calls are checked on the body but cannot be used at call sites.
 func localOnlyClause(cl *Clause) bool {
-	for _, w := range []string{"spawncount(", "spawnarg(", "callcount(", "callarg("} {
+	for _, w := range []string{"spawncount(", "spawnarg(", "callcount(", "callarg(", "final("} {
 		if strings.Contains(cl.Src, w) {
 			return true
 		}
